@@ -37,9 +37,12 @@ action try_handler {
 }
 
 action try_handler_simple {
-  _, err = handler.HandleObjectValue(data[currentFieldStart+1:currentFieldEnd-1], data[p:])
+  pp, err = handler.HandleObjectValue(data[currentFieldStart+1:currentFieldEnd-1], data[p:])
   if err != nil {
     return p, stack, err
+  }
+  if pp < 0 || pp > pe - p {
+    return p, stack, errPOutOfRange
   }
 }
 
